@@ -347,6 +347,73 @@ def update_lock_is_reentrant_lock():
             found.append(_norm(a.value))
     return 'bool', cbool(found == ['threading.RLock()'])
 
+def _json_is_stdlib():
+    """the name `json` of frappy/persistent.py is the standard module: bound by the one top-level `import json`,
+    never assigned, imported under that name from elsewhere, or bound as a parameter / loop variable"""
+    tree = parse(F)
+    imports = 0
+    for n in ast.walk(tree):
+        if isinstance(n, ast.Import):
+            for a in n.names:
+                if (a.asname or a.name.split('.')[0]) == 'json':
+                    if a.name != 'json' or a.asname not in (None, 'json') or n not in tree.body:
+                        return False
+                    imports += 1
+        elif isinstance(n, ast.ImportFrom):
+            if any((a.asname or a.name) == 'json' or a.name == '*' for a in n.names):
+                return False
+        elif isinstance(n, ast.Name) and n.id == 'json' and not isinstance(n.ctx, ast.Load):
+            return False
+        elif isinstance(n, ast.arg) and n.arg == 'json':
+            return False
+        elif isinstance(n, (ast.Global, ast.Nonlocal)) and 'json' in n.names:
+            return False
+    return imports == 1
+
+
+def dump_text_is_ascii():
+    """the one json.dump of the class is `json.dump(data, f, indent=2)`: two positional arguments, the only keyword is
+    indent=2 - in particular no ensure_ascii=False, no cls/default/separators and no ** argument, and `json` is the
+    standard module.  With the default ensure_ascii=True every chunk handed to f.write is pure ASCII, so the
+    text layer of the file cannot fail to encode it (lone surrogates, non-BMP characters and control characters of
+    string values are written as escapes)"""
+    dumps = [c for c in walk_type(_mixin(), ast.Call) if _norm(c.func) in ('json.dump', 'json.dumps')]
+    anyjson = [n for n in walk_type(_mixin(), ast.Attribute) if isinstance(n.value, ast.Name) and n.value.id == 'json']
+    if len(dumps) != 1 or _norm(dumps[0].func) != 'json.dump':
+        raise Shape('PersistentMixin: expected exactly one json.dump call')
+    c = dumps[0]
+    inside = any(x is c for x in ast.walk(_try()))
+    ok = inside and len(c.args) == 2 and [_norm(a) for a in c.args] == ['data', 'f'] and \
+        not any(isinstance(a, ast.Starred) for a in c.args) and \
+        [(k.arg, _norm(k.value)) for k in c.keywords] == [('indent', '2')]
+    # json is used as json.dump / json.load only (no json.JSONEncoder subclass, no json.encoder tweaks)
+    ok = ok and sorted(n.attr for n in anyjson) == ['dump', 'load'] and _json_is_stdlib()
+    return 'bool', cbool(ok)
+
+
+def tmp_file_is_utf8_text():
+    """the temporary file is opened as open(<tmp>, 'w', encoding='utf-8'): text mode, utf-8, default (strict) error
+    handler, default newline handling and buffering - an ASCII text is written as it is"""
+    tmp = _tmp_names()
+    w = _try().body[0]
+    if not isinstance(w, ast.With) or len(w.items) != 1 or not _is_call(w.items[0].context_expr, 'open'):
+        raise Shape('__save_params: expected `with open(...) as f:` as first statement of the try body')
+    c = w.items[0].context_expr
+    ok = [_norm(a) for a in c.args] == [tmp, "'w'"] and \
+        [(k.arg, _norm(k.value)) for k in c.keywords] == [('encoding', "'utf-8'")]
+    # `open` is the builtin: never bound in the module
+    tree = parse(F)
+    for n in ast.walk(tree):
+        if isinstance(n, ast.Name) and n.id == 'open' and not isinstance(n.ctx, ast.Load):
+            ok = False
+        elif isinstance(n, ast.arg) and n.arg == 'open':
+            ok = False
+        elif isinstance(n, (ast.Import, ast.ImportFrom)) and any((a.asname or a.name) in ('open', '*') for a in n.names):
+            ok = False
+        elif isinstance(n, (ast.FunctionDef, ast.ClassDef)) and n.name == 'open':
+            ok = False
+    return 'bool', cbool(ok)
+
 
 FACTS = [change_detection, pdata_assigned_after_rename, writes_go_to_tmp, only_rename_writes_target,
          target_touched_only_by_final_rename, save_call_sites,
@@ -354,7 +421,8 @@ FACTS = [change_detection, pdata_assigned_after_rename, writes_go_to_tmp, only_r
          nonobject_document_is_unreadable, entries_imported_individually, entries_validated_and_exportable,
          cfg_precedes_file, given_set_for_configured_values,
          save_deferred_while_writes_pending, init_saves_after_loading, callback_exceptions_swallowed,
-         callbacks_called_inside_update_lock, update_lock_is_reentrant_lock]
+         callbacks_called_inside_update_lock, update_lock_is_reentrant_lock,
+         dump_text_is_ascii, tmp_file_is_utf8_text]
 
 FINGERPRINTS = {
     'PersistentMixin.__init__': lambda: find_func(_mixin(), '__init__'),
